@@ -4,9 +4,10 @@
 # usage: rebase_patch.sh <seeded|refactors>/<id> [finish]
 d=/verif/$1; id=$(basename $1); wt=/tmp/rebase_$id
 if [ "$2" = finish ]; then
-  (cd $wt && grep -rl '^<<<<<<< ' rockit && echo "conflict markers remain" && exit 1
-   git diff HEAD -- rockit > $d/patch.diff && /venv/bin/python -m compileall -q rockit >/dev/null && echo "rebased $id (manual)")
-  git -C /repo worktree remove --force $wt; exit 0
+  cd $wt || exit 2
+  if grep -rl '^<<<<<<< ' rockit; then echo "conflict markers remain in $wt"; exit 1; fi
+  git diff HEAD -- rockit > $d/patch.diff && /venv/bin/python -m compileall -q rockit >/dev/null && echo "rebased $id (manual)"
+  cd /; git -C /repo worktree remove --force $wt; exit 0
 fi
 git -C /repo worktree add -q --detach $wt HEAD || exit 2
 cd $wt || exit 2
